@@ -40,6 +40,8 @@ type fpAnalysis struct {
 	stores   map[token.Pos]string // store position -> kind ("value"/"name")
 	locals   map[*types.Var]uint8 // bool locals defined as NeedObjectName() || ... -> bit
 	storeIdx map[token.Pos]int
+	bound    map[types.Object]ast.Expr // parameters of walked helpers -> arguments
+	scope    []*FuncInfo
 }
 
 func (a *fpAnalysis) report(rule, construct string, pos token.Pos, detail string) {
@@ -190,7 +192,7 @@ func (a *fpAnalysis) node(n ast.Node, s fpS) []fpS {
 				// MayAppendDelim(x.Buf, K)
 				okArgs := len(mad.Args) == 2
 				if okArgs {
-					k, isC := ConstI64(a.info, mad.Args[1])
+					k, isC := a.constI64(mad.Args[1])
 					okArgs = isC && k != '}' && k != ']' && k > 0
 					// first argument: X.Buf or a local alias of it
 					first := ast.Unparen(mad.Args[0])
@@ -198,7 +200,7 @@ func (a *fpAnalysis) node(n ast.Node, s fpS) []fpS {
 						okArgs = okArgs && exprString(first.(*ast.SelectorExpr).X) == exprString(x)
 					} else if v, _ := IdentObj(a.info, first).(*types.Var); v != nil {
 						al := false
-						for _, d := range defsOf(a.info, a.f.Body(), v) {
+						for _, d := range defsOf(a.info, a.bodyAt(st.Pos()), v) {
 							if SelField(a.info, d) == a.bufField {
 								al = true
 							}
@@ -314,6 +316,35 @@ func (a *fpAnalysis) stringifyLocals() {
 	})
 }
 
+// constI64 evaluates a constant, looking through parameters of a walked helper to the
+// argument the caller passed.
+func (a *fpAnalysis) constI64(e ast.Expr) (int64, bool) {
+	for depth := 0; depth < 4; depth++ {
+		if v, ok := ConstI64(a.info, e); ok {
+			return v, true
+		}
+		o := IdentObj(a.info, e)
+		arg, ok := a.bound[o]
+		if o == nil || !ok {
+			return 0, false
+		}
+		e = arg
+	}
+	return 0, false
+}
+
+// bodyAt returns the body of the function (subject or walked helper) that contains pos.
+func (a *fpAnalysis) bodyAt(pos token.Pos) ast.Node {
+	for _, g := range a.scope {
+		if b := g.Body(); b != nil && b.Pos() <= pos && pos <= b.End() {
+			if g != a.f {
+				return b
+			}
+		}
+	}
+	return a.f.Body()
+}
+
 func ruleFP(c *Ctx, which string) {
 	p := c.P
 	bufField := p.Field("jsontext", "encodeBuffer", "Buf")
@@ -351,6 +382,47 @@ func ruleFP(c *Ctx, which string) {
 			subjects = append(subjects, subj{f, ss})
 		}
 	}
+	// a private helper that holds a fast path (unexported declaration, called only from this package)
+	// is analysed inside its callers, where its guards are: its stores are attributed to them
+	isHelper := map[*FuncInfo]bool{}
+	for _, s := range subjects {
+		if s.f.Decl != nil && s.f.Obj != nil && !ast.IsExported(s.f.Obj.Name()) && s.f.Decl.Recv == nil && len(s.stores) > 0 {
+			if cs := callersOf(p, s.f.Obj); len(cs) > 0 {
+				isHelper[s.f] = true
+			}
+		}
+	}
+	if len(isHelper) > 0 {
+		var kept []subj
+		have := map[*FuncInfo]bool{}
+		for _, s := range subjects {
+			if !isHelper[s.f] {
+				kept = append(kept, s)
+				have[s.f] = true
+			}
+		}
+		for h := range isHelper {
+			var hs subj
+			for _, s := range subjects {
+				if s.f == h {
+					hs = s
+				}
+			}
+			for _, cf := range callersOf(p, h.Obj) {
+				if !have[cf] {
+					kept = append(kept, subj{cf, nil})
+					have[cf] = true
+				}
+				for i := range kept {
+					if kept[i].f == cf {
+						kept[i].stores = append(kept[i].stores, hs.stores...)
+					}
+				}
+			}
+		}
+		sort.Slice(kept, func(i, j int) bool { return kept[i].f.Pos() < kept[j].f.Pos() })
+		subjects = kept
+	}
 	total := 0
 	for _, s := range subjects {
 		total += len(s.stores)
@@ -360,13 +432,28 @@ func ruleFP(c *Ctx, which string) {
 	}
 	for _, s := range subjects {
 		f := s.f
-		a := &fpAnalysis{p: p, f: f, info: f.Info(), bufField: bufField, stores: map[token.Pos]string{}, storeIdx: map[token.Pos]int{}}
+		a := &fpAnalysis{p: p, f: f, info: f.Info(), bufField: bufField, stores: map[token.Pos]string{}, storeIdx: map[token.Pos]int{}, bound: map[types.Object]ast.Expr{}, scope: p.CalleeClosure(f, 2)}
 		sort.Slice(s.stores, func(i, j int) bool { return s.stores[i] < s.stores[j] })
 		for i, ps := range s.stores {
 			a.storeIdx[ps] = i + 1
 		}
 		a.stringifyLocals()
 		fl := &Flow[fpS]{Fn: f}
+		fl.Inline = func(call *ast.CallExpr) *FuncInfo {
+			if g := p.InlineAny(f)(call); g != nil && isHelper[g] {
+				return g
+			}
+			return nil
+		}
+		fl.Bind = func(callee *FuncInfo, call *ast.CallExpr, s fpS) fpS {
+			if callee.Obj != nil {
+				sig := callee.Obj.Type().(*types.Signature)
+				for i := 0; i < sig.Params().Len() && i < len(call.Args); i++ {
+					a.bound[sig.Params().At(i)] = call.Args[i]
+				}
+			}
+			return s
+		}
 		fl.Node = a.node
 		fl.Leaf = a.leaf
 		fl.Run(fpS{})
